@@ -34,6 +34,43 @@ theorem blocks_succ (s : Bytes) (fuel p : Nat) (out : Bytes) :
   simp only [blocks, specBlock, capReached]
   rfl
 
+theorem storedBlock_stop (s : Bytes) (p : Nat) (out : Bytes) (st : Status) (q : Nat) (o : Bytes)
+    (h : storedBlock s p out = .stop st q o) : st ≠ .done := by
+  unfold storedBlock at h
+  repeat' split at h
+  all_goals first
+    | (simp only [BlockResult.stop.injEq] at h; obtain ⟨rfl, _, _⟩ := h; exact fun hc => by cases hc)
+    | simp at h
+
+theorem huffBlock_stop (hl hd : Huff) (minL minD : Nat) (s : Bytes) (lo : Nat) :
+    ∀ (fuel p : Nat) (out : Bytes) (st : Status) (q : Nat) (o : Bytes),
+    huffBlock hl hd minL minD s none lo fuel p out = .stop st q o → st ≠ .done := by
+  intro fuel
+  induction fuel with
+  | zero =>
+    intro p out st q o h
+    simp only [huffBlock, BlockResult.stop.injEq] at h
+    obtain ⟨rfl, _, _⟩ := h
+    exact fun hc => by cases hc
+  | succ fuel ih =>
+    intro p out st q o h
+    simp only [huffBlock, capReached] at h
+    repeat' split at h
+    all_goals first
+      | exact ih _ _ _ _ _ h
+      | (simp only [BlockResult.stop.injEq] at h; obtain ⟨rfl, _, _⟩ := h; exact fun hc => by cases hc)
+      | simp at h
+
+theorem specBlock_stop (s : Bytes) (p : Nat) (out : Bytes) (st : Status) (q : Nat) (o : Bytes)
+    (h : specBlock s p out = .stop st q o) : st ≠ .done := by
+  unfold specBlock at h
+  repeat' split at h
+  all_goals first
+    | exact storedBlock_stop _ _ _ _ _ _ h
+    | exact huffBlock_stop _ _ _ _ _ _ _ _ _ _ _ _ h
+    | (simp only [BlockResult.stop.injEq] at h; obtain ⟨rfl, _, _⟩ := h; exact fun hc => by cases hc)
+    | simp at h
+
 /-- the specification decoder, started at bit 0 with no output, is at a block boundary at bit `p` with output `out` -/
 inductive Reach (s : Bytes) : Nat → Bytes → Prop
   | start : Reach s 0 #[]
@@ -254,9 +291,7 @@ theorem decodeBlocks_spec {s : Bytes} (hdyn : DynRefines s) : ∀ (fuel : Nat) (
         simp only [Result.mk.injEq] at h
         obtain ⟨h1, h2, h3⟩ := h
         -- a block that stops never stops with `done`
-        exfalso
-        unfold specBlock at hb
-        sorry
+        exact absurd h1.symm (specBlock_stop s p out stt q o hb)
       | next p1 out1 =>
         rw [hb] at h
         simp only at h
